@@ -68,6 +68,19 @@ def run(ctx):
     calls = [enclosing_stmt(c) for c in walk_no_nested(init.node) if isinstance(c, ast.Call) and isinstance(c.func, ast.Attribute)
              and c.func.attr == '_parameterize']
     if not calls:
+        # reached through a helper method of the class?
+        def reaches(mname, seen=()):
+            m_ = ArcC.methods.get(mname)
+            if m_ is None or mname in seen:
+                return False
+            for c_ in walk_no_nested(m_.node):
+                if isinstance(c_, ast.Call) and isinstance(c_.func, ast.Attribute) and isinstance(c_.func.value, ast.Name) and c_.func.value.id == 'self':
+                    if c_.func.attr == '_parameterize' or reaches(c_.func.attr, seen + (mname,)):
+                        return True
+            return False
+        calls = [enclosing_stmt(c) for c in walk_no_nested(init.node) if isinstance(c, ast.Call) and isinstance(c.func, ast.Attribute)
+                 and isinstance(c.func.value, ast.Name) and c.func.value.id == 'self' and reaches(c.func.attr)]
+    if not calls:
         raise AnchorMissing('call of _parameterize in Arc.__init__')
     cfg = CFG(init.node)
     reads = set()
@@ -212,6 +225,38 @@ def _axis_circles(ctx, mdl):
                                 bad.append('%s: %s' % (label, '; '.join(probs)))
                             elif unknown and not und:
                                 und = '%s: %s' % (label, '; '.join(unknown[:2]))
+            # the same arcs built one after the other in ONE run, hash() made adversarial (hashes may collide): an arc built later gets
+            # its own parameterisation, whatever the constructor remembers of earlier ones
+            specs = []
+            for c, r in ((Rat.const(0), 1), (Rat.const(2 + 3j), 2)):
+                for k0 in range(4):
+                    sgn = 1 if sweep else -1
+                    steps = 3 if large else 1
+                    specs.append((c, r, k0, (k0 + sgn * steps) % 4, (0, 180, 90, -90)[k0]))
+
+            def th_seq(it):
+                out = []
+                for c, r, k0, k1, rot in specs + specs[:2]:
+                    a = it.construct('path.Arc', c + r * unit[k0], Rat.const(complex(r, r)), Rat.const(rot), large, sweep, c + r * unit[k1])
+                    out.append((a.attrs['center'], a.attrs['theta'], a.attrs['delta'], a.attrs['radius']))
+                return out
+            try:
+                for pth in explore(mdl, th_seq, {'ext_hooks': {'builtins.hash': lambda it, a_, k_: 7}}):
+                    if pth.raised is not None:
+                        bad.append('a sequence of constructions raises %s' % pth.raised.exc_name)
+                        continue
+                    for (c, r, k0, k1, rot), (cen, th_, de_, rad) in zip(specs + specs[:2], pth.value):
+                        okc = decide_equal(cen, c)[0]
+                        tf_ = to_rat(th_).as_fraction()
+                        okt = tf_ is not None and (tf_ - (90 * k0 - rot)) % 360 == 0
+                        okd = decide_equal(de_, Rat.const((1 if sweep else -1) * 90 * (3 if large else 1)))[0]
+                        okr = decide_equal(rad, Rat.const(complex(r, r)))[0]
+                        if okc is False or okd is False or okr is False or (tf_ is not None and not okt):
+                            bad.append('built after other arcs (colliding hashes), the arc from %s to %s gets center %s, theta %s, delta %s, radius %s' % (
+                                short(c + r * unit[k0], 10), short(c + r * unit[k1], 10), short(cen, 14), short(th_, 10), short(de_, 10), short(rad, 10)))
+                            break
+            except Undecidable as e:
+                und = und or str(e)
             label = 'large_arc=%s sweep=%s: %d concrete circular arcs' % (large, sweep, n)
             if und and not bad:
                 ctx.undecided('R04.7', fi.qualname, label, und, where=where(fi))
